@@ -292,7 +292,14 @@ func (w *world) quiesce() {
 		}
 		queued := 0
 		for _, vr := range w.vr {
-			queued += vr.VerifQueueLen()
+			n := vr.VerifQueueLen()
+			if n < 0 {
+				// the queue's internals are not readable on this tree: a datagram waiting out a
+				// delay (3 ms at most with the dawdling filter) shows only in the activity counter
+				time.Sleep(4 * time.Millisecond)
+				n = 0
+			}
+			queued += n
 		}
 		// a loop waiting on its MinDelay timer is parked in a select too: the
 		// queues must be empty as well
